@@ -547,10 +547,71 @@ fn line_case(rng: &mut Rng, modes: &[(&'static str, usize)]) -> (String, Input) 
 const MODES_ALL: [(&str, usize); 11] =
     [("short", 6), ("long", 2), ("iso", 3), ("deep", 1), ("brk", 2), ("sep", 2), ("words", 3), ("weak", 3), ("para", 2), ("max", 1), ("n0", 4)];
 
+/// Exhaustive small scope (support for the thorough tier, never presented as proof): the `n`-th class
+/// sequence over `alphabet`, shortest first, crossed with the three base directions; representatives rotate.
+pub const EXH_FULL: [BidiClass; 23] = ALL_CLASSES;
+pub const EXH_REDUCED: [BidiClass; 12] = [L, R, AL, EN, ES, ET, AN, CS, NSM, BN, ON, WS];
+pub const EXH_CTRL: [BidiClass; 10] = [L, R, EN, ON, LRE, RLE, PDF, LRI, RLI, PDI];
+
+pub fn exh_total(alpha: usize, max_len: usize) -> usize {
+    let mut t = 0usize;
+    let mut p = 1usize;
+    for _ in 0..=max_len {
+        t += p * 3;
+        p *= alpha;
+    }
+    t
+}
+
+pub fn exh_case(alphabet: &[BidiClass], n: usize, as_line: bool) -> Input {
+    let dir = [Dir::Auto, Dir::L0, Dir::L1][n % 3];
+    let mut k = n / 3;
+    let mut len = 0usize;
+    let mut p = 1usize;
+    while k >= p {
+        k -= p;
+        p *= alphabet.len();
+        len += 1;
+    }
+    let mut text = vec![];
+    for i in 0..len {
+        let c = alphabet[k % alphabet.len()];
+        k /= alphabet.len();
+        let pl = pool(c);
+        text.push(pl[(n / 7 + i) % pl.len()]);
+    }
+    let enc = if (n / 3) % 2 == 0 { Enc::U8 } else { Enc::U16 };
+    let api = if (n / 6) % 4 == 3 { Api::P } else { Api::B };
+    let text = if enc == Enc::U16 {
+        let mut u = vec![];
+        for &c in &text {
+            if c >= 0x10000 { let v = c - 0x10000; u.push(0xD800 + (v >> 10)); u.push(0xDC00 + (v & 0x3FF)); } else { u.push(c); }
+        }
+        u
+    } else { text };
+    if as_line && len > 0 {
+        // the whole first paragraph minus nothing, or a middle piece, on character boundaries
+        let bounds = char_starts(enc, &text);
+        let a = bounds[(n / 11) % (bounds.len() - 1)];
+        let rest: Vec<usize> = bounds.iter().copied().filter(|&b| b > a).collect();
+        let b = rest[(n / 13) % rest.len()];
+        if let Some(an) = analyse(enc, api, dir, &text, &None) {
+            if let Some(pi) = an.paras.iter().position(|p| p.range.start <= a && b <= p.range.end) {
+                return Input::Line { enc, api, dir, text, ds: None, para: pi, a, b };
+            }
+        }
+    }
+    Input::Bidi { enc, api, dir, text, ds: None }
+}
+
 /// the `n`-th generated case of property `prop`
 pub fn gen_case(prop: &str, rng: &mut Rng, n: usize, thorough: bool) -> (String, Input) {
     let _ = thorough;
     match prop {
+        "XFULL" => ("exh-full".into(), exh_case(&EXH_FULL, n, false)),
+        "XRED" => ("exh-reduced".into(), exh_case(&EXH_REDUCED, n, false)),
+        "XCTRL" => ("exh-ctrl".into(), exh_case(&EXH_CTRL, n, false)),
+        "XLINE" => ("exh-line".into(), exh_case(&EXH_FULL, n, true)),
         "C01" => bidi_case(rng, &MODES_ALL, true),
         "C02" => {
             if n == 0 {
